@@ -50,7 +50,7 @@ def run(tier, seed):
         "MemoryCache and FileCache with gated source readers and chunk-wise reader handles over self-describing "
         "bodies (every 16-byte block names key, version, offset); every value returned by Get/Cache and every "
         "chunk read is compared with the specification by TLC (CacheStoreTrace). distinct_nontrivial = distinct "
-        "(step kind, outcome) pairs observed on the real code.",
+        "(step kind, outcome) pairs observed on the real code. Stores that first make room by eviction are part of the families and of the targeted behaviours; the body a successful store hands back and the body a lookup returns for every key at the end of a behaviour are audited block by block whatever went before.",
         ["bodies are 1..2 chunks of 64 B or 64 KiB+16 B in replays", "cache level and proxy level (see notes) only; "
          "a 200/206 assembled by net/http below the responder is trusted"],
         extra_runs=extra)
